@@ -16,7 +16,11 @@ class Ctx:
         self.meta = json.load(open(os.path.join(self.facts, 'meta.json')))
     def mod(self, cfg):
         if cfg not in self._mods:
-            self._mods[cfg] = IR.load_cfg(self.facts, cfg)
+            m = None
+            if cfg == 'C':
+                from . import mumodel
+                m = mumodel.try_load(self)
+            self._mods[cfg] = m if m is not None else IR.load_cfg(self.facts, cfg)
         return self._mods[cfg]
     @property
     def probe(self):
